@@ -1,5 +1,9 @@
 import ScVerif.Base.Line
 import ScVerif.C20.DrvParent
+import ScVerif.C20.DrvVending
+import ScVerif.C20.DrvSmall
+import ScVerif.C20.DrvFan
+import ScVerif.C20.DrvPub
 /-! Driver handler for C20: one op prefix per model (`par.`, `vend.`, `mode.`, `el.`, `meter.`, `fan.`, `pub.`). -/
 namespace ScVerif.C20
 
@@ -9,6 +13,12 @@ def handle (toks : List String) : String :=
     | [] => none
     | op :: _ =>
       if op.startsWith "par." then Parent.handle? toks
+      else if op.startsWith "vend." then Vending.handle? toks
+      else if op.startsWith "mode." then Mode.handle? toks
+      else if op.startsWith "el." then EnterLeave.handle? toks
+      else if op.startsWith "meter." then Meter.handle? toks
+      else if op.startsWith "fan." then FanSpeed.handle? toks
+      else if op.startsWith "pub." then Publication.handle? toks
       else none
   match r with
   | some s => s
